@@ -213,7 +213,24 @@ pub fn run_client_racy(cfg: &ScenCfg, out: &mut RunOut) {
                         match choice {
                             0 => {
                                 let r = super::client::correct_reply(&req);
-                                let d = [0u64, 100_000, 4 * MS, 49 * MS][choose(4) as usize];
+                                // also: readable exactly at the request's deadline (a genuine race between the
+                                // timer and the reader: either outcome is legal, both are checked for consistency)
+                                let to_deadline = subs
+                                    .values()
+                                    .find(|s| pdu::encode_req(&s.req) == pdu_req && s.unit == unit)
+                                    .map(|s| (wire[fi].t + s.timeout).saturating_sub(now))
+                                    .unwrap_or(0);
+                                let d = match choose(6) {
+                                    0 => 0u64,
+                                    1 => 100_000,
+                                    2 => 4 * MS,
+                                    3 => 49 * MS,
+                                    4 => {
+                                        out.probe("racy_reply_exactly_at_deadline");
+                                        to_deadline
+                                    }
+                                    _ => to_deadline.saturating_sub(1),
+                                };
                                 let f = mbap_frame(tx, unit, &r);
                                 let at = if chance(1, 4) {
                                     // the reply arrives in two segments, the second one later
